@@ -22,6 +22,8 @@ TRACE_FAMS = {
     "T_cascadeIdx": dict(T_BASE, BossMode="idxNull", TeamMode="idxCascade"),
     "T_entity": dict(T_BASE, LinksViaEntity=True, TeamMode="idxNull"),
     "T_ext": dict(T_BASE, ChildExtended=True, TeamMode="conNoneNull"),
+    # both references cascade (teams <- people <- people): chains, a person that is its own boss, cycles, the same person reached twice
+    "T_tree": dict(T_BASE, BossMode="conCascadeNull", TeamMode="conCascadeNull"),
     "T_child": dict(T_BASE, ChildFeatures=True, TeamMode="idxNull", Ops=ALL_CALLS | fs("updateTeam")),
 }
 for k, v in TRACE_FAMS.items():
